@@ -427,3 +427,44 @@ def c20(tier, replay=None):
                                           "nodes": [[n["op"], n["name"], n["a"]] for n in r["nodes"]]})
     chk.part("harness", **info)
     return chk.finish()
+
+
+# ------------------------------------------------------------------------------------------------
+def syseq_check(prop, tier, replay, cmd, rule, gen_n, level="translation_validation"):
+    chk = Check(prop, tier, level)
+    T = chk.thorough()
+    trace = chk.work / "trace.ndjson"
+    if replay:
+        rep = json.loads(Path(replay).read_text())
+        pv.write_ndjson(trace, [rep["detail"]["record"]])
+        info = {"records": 1, "systems": 1}
+    else:
+        p = pv.pv([cmd, "--out", trace, "--systems", gen_n[1] if T else gen_n[0], "--max-kb", 100000 if T else 24, "--nenv", 8])
+        info = json.loads(p.stdout.strip().splitlines()[-1])
+    st = batch_check(chk, "Trace_SysEq", trace, lambda rj, rec: {"why": rj["why"], "kind": rj.get("kind", ""), "loc": rj.get("loc", "")[:160]},
+                     lambda rj, rec: {"record": rec, "tlc": rj}, shards=14)
+    chk.cov["programs"] = info["systems"]
+    chk.cov["disagreements_checked"] = st["records"]
+    chk.cov["evaluations"] = st["records"]
+    chk.cov["distinct_nontrivial"] = info["systems"]
+    chk.cov["traces_validated_against_impl"] = st["records"]
+    chk.cov["rule"] = rule
+    sample_lines(chk, trace, 2, lambda r: {"id": r["id"], "kind": r["kind"], "text": r.get("text", [])[:30],
+                                          "before_states": r.get("before", {}).get("states", [])[:4] if "before" in r else r.get("first")})
+    chk.part("harness", **info)
+    chk.assumptions += ["function equivalence is decided by evaluation: all assignments up to 10 symbol bits, corner + random assignments above (8 for shipped designs)"]
+    return chk.finish()
+
+
+def c11(tier, replay=None):
+    return syseq_check("C11", tier, replay, "c11",
+                       "seeded random systems (arrays, shared sub-expressions, anonymous _input_/_state_ inputs, signals that are input and output, named "
+                       "inner nodes) and shipped btor2 designs; simplify_expressions and replace_anonymous_inputs_with_zero each compared with the original "
+                       "function by function by TLC (Trace_SysEq); programs = systems", (600, 6000))
+
+
+def c09(tier, replay=None):
+    return syseq_check("C09", tier, replay, "c09",
+                       "seeded random writer-accepted systems (constant states, init over earlier states, array states, labels aliasing states, named and "
+                       "anonymous signals) and shipped btor2 designs: serialize_to_str then parse_str into the same context, compared with the ORIGINAL "
+                       "position by position by TLC; second write/read cycle for the name clause; programs = systems", (600, 6000))
